@@ -53,6 +53,17 @@ enum Ins {
     Lea(usize, String),
     Mov(Opd, Opd),
     Cmp(Opd, Opd),
+    Test(Opd, Opd),
+    /// and / or / xor
+    Logic(u8, Opd, Opd),
+    Xchg(Opd, Opd),
+    /// lea r, [base + off]
+    LeaM(usize, usize, i64),
+    /// neg / not / inc / dec
+    Unary(u8, Opd),
+    /// shl / sar / shr by an immediate
+    Shift(u8, Opd, u32),
+    Cmov(Cc, usize, Opd),
     Jcc(Cc, String),
     Push(usize),
     Pop(usize),
@@ -78,7 +89,10 @@ fn parse_mem(s: &str) -> Option<Opd> {
     let inner = s.trim().strip_prefix('[')?.strip_suffix(']')?;
     let (r, off) = match inner.split_once('+') {
         Some((r, o)) => (r.trim(), parse_int(o)?),
-        None => (inner.trim(), 0),
+        None => match inner.split_once('-') {
+            Some((r, o)) => (r.trim(), parse_int(o)?.checked_neg()?),
+            None => (inner.trim(), 0),
+        },
     };
     Some(Opd::M(reg_index(r)?, off))
 }
@@ -165,9 +179,41 @@ pub fn parse(text: &str) -> Result<Program, Fault> {
             }
             "lea" => split2(rest).and_then(|(a, b)| {
                 let r = reg_index(a.trim())?;
-                let lab = b.trim().strip_prefix("[rel ")?.strip_suffix(']')?;
-                Some(Ins::Lea(r, lab.trim().to_string()))
+                if let Some(lab) = b.trim().strip_prefix("[rel ").and_then(|x| x.strip_suffix(']')) {
+                    return Some(Ins::Lea(r, lab.trim().to_string()));
+                }
+                match parse_mem(b)? {
+                    Opd::M(base, off) => Some(Ins::LeaM(r, base, off)),
+                    _ => None,
+                }
             }),
+            "test" => two(rest).map(|(a, b)| Ins::Test(a, b)),
+            "and" => two(rest).map(|(a, b)| Ins::Logic(0, a, b)),
+            "or" => two(rest).map(|(a, b)| Ins::Logic(1, a, b)),
+            "xor" => two(rest).map(|(a, b)| Ins::Logic(2, a, b)),
+            "xchg" => two(rest).map(|(a, b)| Ins::Xchg(a, b)),
+            "neg" => parse_opd(rest).map(|o| Ins::Unary(0, o)),
+            "not" => parse_opd(rest).map(|o| Ins::Unary(1, o)),
+            "inc" => parse_opd(rest).map(|o| Ins::Unary(2, o)),
+            "dec" => parse_opd(rest).map(|o| Ins::Unary(3, o)),
+            "shl" | "sal" | "sar" | "shr" => two(rest).and_then(|(a, b)| match b {
+                Opd::I(n) if (0..64).contains(&n) => Some(Ins::Shift(if mn == "sar" { 1 } else if mn == "shr" { 2 } else { 0 }, a, n as u32)),
+                _ => None,
+            }),
+            "cmove" | "cmovz" | "cmovne" | "cmovnz" | "cmovl" | "cmovle" | "cmovg" | "cmovge" => split2(rest).and_then(|(a, b)| {
+                let cc = match mn {
+                    "cmove" | "cmovz" => Cc::E,
+                    "cmovne" | "cmovnz" => Cc::Ne,
+                    "cmovl" => Cc::L,
+                    "cmovle" => Cc::Le,
+                    "cmovg" => Cc::G,
+                    _ => Cc::Ge,
+                };
+                Some(Ins::Cmov(cc, reg_index(a.trim())?, parse_opd(b)?))
+            }),
+            "jz" => Some(Ins::Jcc(Cc::E, rest.to_string())),
+            "jnz" => Some(Ins::Jcc(Cc::Ne, rest.to_string())),
+            "nop" => Some(Ins::Mov(Opd::R(RAX), Opd::R(RAX))),
             "je" => Some(Ins::Jcc(Cc::E, rest.to_string())),
             "jne" => Some(Ins::Jcc(Cc::Ne, rest.to_string())),
             "jl" => Some(Ins::Jcc(Cc::L, rest.to_string())),
@@ -385,6 +431,10 @@ impl<'p> Emu<'p> {
                         let w = self.read(*s, "mov")?;
                         self.write(*d, w, "mov")?;
                     }
+                    Ins::Sub(Opd::R(x), Opd::R(y)) if x == y => {
+                        self.regs[*x] = Word::Def(0);
+                        self.flags = Some(Flags { zf: true, sf: false, of: false });
+                    }
                     Ins::Add(d, s) | Ins::Sub(d, s) | Ins::Imul(d, s) => {
                         let a = self.need(self.read(*d, "arith")?, "arithmetic on an undefined value")? as i64;
                         let b = self.need(self.read(*s, "arith")?, "arithmetic on an undefined value")? as i64;
@@ -407,6 +457,87 @@ impl<'p> Emu<'p> {
                         let y = self.need(self.read(*b, "cmp")?, "comparison of an undefined value")? as i64;
                         let (r, of) = x.overflowing_sub(y);
                         self.flags = Some(Flags { zf: r == 0, sf: r < 0, of });
+                    }
+                    Ins::Test(a, b) => {
+                        let x = self.need(self.read(*a, "test")?, "test of an undefined value")?;
+                        let y = self.need(self.read(*b, "test")?, "test of an undefined value")?;
+                        let r = (x & y) as i64;
+                        self.flags = Some(Flags { zf: r == 0, sf: r < 0, of: false });
+                    }
+                    Ins::Logic(k, d, s) => {
+                        // `xor r, r` (and `sub r, r`) define the register whatever it held
+                        let same = matches!((d, s), (Opd::R(x), Opd::R(y)) if x == y);
+                        let r = if same && *k == 2 {
+                            0
+                        } else {
+                            let a = self.need(self.read(*d, "logic")?, "logic operation on an undefined value")?;
+                            let b = self.need(self.read(*s, "logic")?, "logic operation on an undefined value")?;
+                            match k {
+                                0 => a & b,
+                                1 => a | b,
+                                _ => a ^ b,
+                            }
+                        };
+                        self.flags = Some(Flags { zf: r == 0, sf: (r as i64) < 0, of: false });
+                        self.write(*d, Word::Def(r), "logic")?;
+                    }
+                    Ins::Xchg(a, b) => {
+                        let x = self.read(*a, "xchg")?;
+                        let y = self.read(*b, "xchg")?;
+                        self.write(*a, y, "xchg")?;
+                        self.write(*b, x, "xchg")?;
+                    }
+                    Ins::LeaM(r, base, off) => {
+                        let a = self.addr_of(*base, *off, "lea")?;
+                        self.regs[*r] = Word::Def(a);
+                    }
+                    Ins::Unary(k, o) => {
+                        let a = self.need(self.read(*o, "unary")?, "arithmetic on an undefined value")? as i64;
+                        let r = match k {
+                            0 => {
+                                let (r, of) = 0i64.overflowing_sub(a);
+                                self.flags = Some(Flags { zf: r == 0, sf: r < 0, of });
+                                r
+                            }
+                            1 => !a,
+                            2 => {
+                                let (r, of) = a.overflowing_add(1);
+                                self.flags = Some(Flags { zf: r == 0, sf: r < 0, of });
+                                r
+                            }
+                            _ => {
+                                let (r, of) = a.overflowing_sub(1);
+                                self.flags = Some(Flags { zf: r == 0, sf: r < 0, of });
+                                r
+                            }
+                        };
+                        self.write(*o, Word::Def(r as u64), "unary")?;
+                    }
+                    Ins::Shift(k, o, n) => {
+                        let a = self.need(self.read(*o, "shift")?, "shift of an undefined value")?;
+                        let r = match k {
+                            0 => a.wrapping_shl(*n),
+                            1 => ((a as i64) >> n) as u64,
+                            _ => a >> n,
+                        };
+                        // the overflow flag of a shift is not modelled: flags undefined afterwards
+                        self.flags = None;
+                        self.write(*o, Word::Def(r), "shift")?;
+                    }
+                    Ins::Cmov(cc, r, s) => {
+                        let f = self.flags.ok_or_else(|| Fault::UndefUse("conditional move on undefined flags".into()))?;
+                        let take = match cc {
+                            Cc::E => f.zf,
+                            Cc::Ne => !f.zf,
+                            Cc::L => f.sf != f.of,
+                            Cc::Le => f.zf || f.sf != f.of,
+                            Cc::G => !f.zf && f.sf == f.of,
+                            Cc::Ge => f.sf == f.of,
+                        };
+                        let w = self.read(*s, "cmov")?;
+                        if take {
+                            self.regs[*r] = w;
+                        }
                     }
                     Ins::Cqo => {
                         let a = self.need(self.regs[RAX], "cqo on undefined rax")? as i64;
